@@ -114,7 +114,8 @@ func (b *verifHubBackend) WriteReader(ctx context.Context, p string, r io.Reader
 // ---- faulting loopback transport -------------------------------------------------------------
 
 type verifFault struct {
-	K       string `json:"k"` // deliver | drop | backpressure | conflict
+	K       string `json:"k"` // deliver | retry | drop | backpressure | conflict
+	Mark    bool   `json:"mark"` // retry: the hub's compaction marks the receipt between the two deliveries
 	Keep    int    `json:"keep"`
 	Flip    int    `json:"flip"`
 	Lost    bool   `json:"lost"`
@@ -131,6 +132,7 @@ type verifTransport struct {
 	recF    string
 	regFail *bool
 	calls   []string
+	mark    func(path string)
 }
 
 func (t *verifTransport) Reconcile(ctx context.Context, hubID string, pending []*LedgerEntry) (*ReconcileResult, error) {
@@ -178,6 +180,7 @@ func (t *verifTransport) PutFile(ctx context.Context, hubID string, entry *Ledge
 		sum := sha256.Sum256(raw)
 		return &PutResult{Outcome: OutcomeConflict, TheirSHA256: hex.EncodeToString(sum[:])}, nil
 	}
+	full := data
 	if f.Keep >= 0 && f.Keep < len(data) {
 		data = data[:f.Keep]
 	}
@@ -188,6 +191,22 @@ func (t *verifTransport) PutFile(ctx context.Context, hubID string, entry *Ledge
 		} else {
 			data[f.Flip]++
 		}
+	}
+	if f.K == "retry" {
+		// transport-level retry: the first delivery reaches the hub, its answer is lost, and the
+		// whole request is sent again without a new reconcile
+		_, _ = t.rcv.Receive(ctx, t.spokeID, entry.Path, entry.SHA256, entry.SizeBytes, offset, bytes.NewReader(data))
+		if f.Mark {
+			t.mark(entry.Path)
+		}
+		res, err := t.rcv.Receive(ctx, t.spokeID, entry.Path, entry.SHA256, entry.SizeBytes, offset, bytes.NewReader(full))
+		if f.Lost {
+			return nil, errors.New("edgesync: file request: response lost")
+		}
+		if err != nil {
+			return nil, fmt.Errorf("edgesync: file transfer failed with 503: hub temporarily unable to accept this file")
+		}
+		return res, nil
 	}
 	*t.regFail = f.RegFail
 	res, err := t.rcv.Receive(ctx, t.spokeID, entry.Path, entry.SHA256, entry.SizeBytes, offset, bytes.NewReader(data))
@@ -416,6 +435,25 @@ func verifRunCase(t *testing.T, c *verifCase) verifOut {
 		tr.Close()
 	}
 
+	// what the hub's compaction of a received namespace does when it consumes one input: the
+	// consumed-inputs observer marks the receipt (an UPDATE: only an existing receipt); the raw
+	// file is deleted later ("hubdeleteraw")
+	consumed := map[string]bool{}
+	markCompacted := func(p string) {
+		final := NamespacedPath(verifSpoke, p)
+		ex, _ := hubBackend.Exists(ctx, final)
+		held, err := index.Lookup(ctx, verifSpoke, []string{p})
+		if err != nil {
+			t.Fatal(err)
+		}
+		if _, ok := held[p]; ok && ex {
+			if err := index.MarkCompacted(ctx, verifSpoke, []string{p}); err != nil {
+				t.Fatal(err)
+			}
+			consumed[p] = true
+		}
+	}
+
 	out := verifOut{ID: c.ID}
 	for _, ev := range c.Events {
 		var o verifObs
@@ -442,27 +480,23 @@ func verifRunCase(t *testing.T, c *verifCase) verifOut {
 			if _, err := ledger.DismissFailed(ctx, DefaultHubID, ""); err != nil {
 				t.Fatal(err)
 			}
-		case "hubcompact":
-			// what the hub's compaction of a received namespace does to one consumed input:
-			// the consumed-inputs observer marks the receipt, then the source file is deleted
+		case "hubmark":
+			markCompacted(c.Paths[ev.P-1])
+		case "hubdeleteraw":
+			// the (possibly deferred) source deletion of a file the hub's compaction consumed
 			p := c.Paths[ev.P-1]
-			final := NamespacedPath(verifSpoke, p)
-			ex, _ := hubBackend.Exists(ctx, final)
-			held, err := index.Lookup(ctx, verifSpoke, []string{p})
-			if err != nil {
-				t.Fatal(err)
-			}
-			if _, ok := held[p]; ok && ex {
-				if err := index.MarkCompacted(ctx, verifSpoke, []string{p}); err != nil {
-					t.Fatal(err)
-				}
-				if err := hubBackend.Delete(ctx, final); err != nil {
+			if consumed[p] {
+				if err := hubBackend.Delete(ctx, NamespacedPath(verifSpoke, p)); err != nil {
 					t.Fatal(err)
 				}
 			}
 		case "hubremove":
-			if err := hubBackend.Delete(ctx, NamespacedPath(verifSpoke, c.Paths[ev.P-1])); err != nil {
-				t.Fatal(err)
+			// a genuine removal (retention, operator); files consumed by compaction are not its business
+			p := c.Paths[ev.P-1]
+			if !consumed[p] {
+				if err := hubBackend.Delete(ctx, NamespacedPath(verifSpoke, p)); err != nil {
+					t.Fatal(err)
+				}
 			}
 		case "run":
 			// restart: a new process re-opens the ledger over the same database
@@ -470,7 +504,7 @@ func verifRunCase(t *testing.T, c *verifCase) verifOut {
 			if err != nil {
 				t.Fatal(err)
 			}
-			tr := &verifTransport{rcv: receiver, rec: reconciler, spokeID: verifSpoke, puts: ev.Puts, recF: ev.Rec, regFail: &regFail}
+			tr := &verifTransport{rcv: receiver, rec: reconciler, spokeID: verifSpoke, puts: ev.Puts, recF: ev.Rec, regFail: &regFail, mark: markCompacted}
 			agent, err := NewAgent(AgentConfig{Ledger: ledger, Transport: tr, Backend: spokeBackend, HubID: DefaultHubID,
 				SpokeID: verifSpoke, MaxAttempts: c.MaxAttempts, MaxConcurrent: 1, BatchSize: 0, Logger: zerolog.Nop()})
 			if err != nil {
